@@ -65,9 +65,13 @@ pub fn render_trait(name: &str, trait_int: i64, rows: &[Vec<i64>]) -> String {
     s.push_str(&format!("pub trait {} {{\n", name));
     for (k, r) in rows.iter().enumerate() {
         // intmode: low 2 bits = int_result attribute; +4 = the method has a default body; +8 = explicit lifetime generics <'a>
-        let has_default = r[1] & 4 != 0;
-        let lt = r[1] & 8 != 0 && r[0] != 2;
-        let recv = match (r[0], lt) { (0, false) => "&self", (0, true) => "&'a self", (1, false) => "&mut self", (1, true) => "&'a mut self", _ => "self" };
+        // receiver field: low 2 bits = receiver kind, +4 = #[vtbl_only] (needs a default body: the opaque object does not forward it)
+        let vtbl_only = r[0] & 4 != 0;
+        let rk = r[0] & 3;
+        let has_default = r[1] & 4 != 0 || vtbl_only;
+        let lt = r[1] & 8 != 0 && rk != 2;
+        if vtbl_only { s.push_str("    #[vtbl_only]\n"); }
+        let recv = match (rk, lt) { (0, false) => "&self", (0, true) => "&'a self", (1, false) => "&mut self", (1, true) => "&'a mut self", _ => "self" };
         match r[1] & 3 { 1 => s.push_str("    #[int_result]\n"), 2 => s.push_str("    #[no_int_result]\n"), _ => {} }
         let n = r[4] as usize;
         let mut args = String::new();
